@@ -548,7 +548,16 @@ impl<'tcx> Exporter<'tcx> {
                         ("ty", s(tys)),
                     ]);
                 }
-                return J::obj(vec![("k", s("const")), ("dp", s(self.dp(u.def))), ("path", s(self.path(u.def))), ("ty", s(tys))]);
+                // the type arguments too: an associated const named through a type parameter (`Self::MAX`) is the const of
+                // whatever impl that parameter is bound to
+                let csub: Vec<J> = u.args.iter().filter_map(|a| a.as_type()).map(|t| s(self.ty_str(t))).collect();
+                return J::obj(vec![
+                    ("k", s("const")),
+                    ("dp", s(self.dp(u.def))),
+                    ("path", s(self.path(u.def))),
+                    ("ty", s(tys)),
+                    ("substs", J::Arr(csub)),
+                ]);
             }
             mir::Const::Val(cv, _) => match cv {
                 ConstValue::Scalar(mir::interpret::Scalar::Int(si)) => {
